@@ -48,14 +48,16 @@ type Wal struct {
 
 // Gate parks the handler goroutine at the top of its loop.
 type Gate struct {
-	mu      sync.Mutex
-	open    bool
-	arrived chan struct{}
-	release chan struct{}
+	mu          sync.Mutex
+	open        bool
+	arrived     chan struct{}
+	release     chan struct{}
+	workerReady chan struct{}
+	workerOnce  sync.Once
 }
 
 func newGate() *Gate {
-	return &Gate{arrived: make(chan struct{}, 1), release: make(chan struct{})}
+	return &Gate{arrived: make(chan struct{}, 1), release: make(chan struct{}), workerReady: make(chan struct{})}
 }
 
 var (
@@ -65,13 +67,17 @@ var (
 
 func init() {
 	masswallet.VerifGate = func(h *masswallet.NtfnsHandler, point string) {
-		if point != "handle.top" {
-			return
-		}
 		gatesMu.Lock()
 		g := gates[h]
 		gatesMu.Unlock()
 		if g == nil {
+			return
+		}
+		if point == "worker.top" {
+			g.workerOnce.Do(func() { close(g.workerReady) })
+			return
+		}
+		if point != "handle.top" {
 			return
 		}
 		g.mu.Lock()
@@ -118,6 +124,9 @@ type World struct {
 	qB     []int
 	qT     []string
 	Log    []string
+	dbPath string
+	gen    int
+	down   bool
 }
 
 
@@ -148,7 +157,8 @@ func NewWorld(u *Universe, dir string, gapLimit uint32) (*World, error) {
 		Blk: map[int]*massutil.Block{0: e.Genesis}, Tx: map[string]*wire.MsgTx{}, TxName: map[wire.Hash]string{}}
 	w.Cfg = &config.Config{Core: config.NewDefCoreConfig(), Wallet: config.NewDefWalletConfig()}
 	w.Cfg.Wallet.Settings.AddressGapLimit = gapLimit
-	inner, err := mwdb.CreateDB("leveldb", filepath.Join(dir, "wallet.db"))
+	w.dbPath = filepath.Join(dir, "wallet.db")
+	inner, err := mwdb.CreateDB("leveldb", w.dbPath)
 	if err != nil {
 		return nil, err
 	}
@@ -195,7 +205,15 @@ func (w *World) start() error {
 	if err := w.W.Start(); err != nil {
 		return fmt.Errorf("Start: %v", err)
 	}
-	return w.waitTop()
+	if err := w.waitTop(); err != nil {
+		return err
+	}
+	select {
+	case <-w.G.workerReady: // the worker has read the persisted task state and entered its loop
+		return nil
+	case <-time.After(20 * time.Second):
+		return fmt.Errorf("worker did not reach its loop within 20s")
+	}
 }
 
 func (w *World) waitTop() error {
@@ -209,6 +227,10 @@ func (w *World) waitTop() error {
 
 // Close stops the follower and releases everything.
 func (w *World) Close() {
+	if w.down {
+		w.E.Close()
+		return
+	}
 	w.G.Open()
 	done := make(chan struct{})
 	go func() { w.W.Stop(); close(done) }()
@@ -386,27 +408,27 @@ func (w *World) Do(s *Step) error {
 		}
 		blk, err := w.buildBlock(s.B, s.P, txs)
 		if err != nil {
-			return err
+			return fmt.Errorf("harness: %v", err)
 		}
 		if err := w.E.Attach(blk); err != nil {
-			return err
+			return fmt.Errorf("harness: %v", err)
 		}
 		w.qB = append(w.qB, s.B)
 	case "Fork":
 		last := s.P
 		for i, txs := range s.Txs {
 			if _, err := w.buildBlock(s.B+i, last, txs); err != nil {
-				return err
+				return fmt.Errorf("harness: %v", err)
 			}
 			last = s.B + i
 		}
 		if err := w.E.SwitchTo(*w.Blk[last].Hash(), nil); err != nil {
-			return err
+			return fmt.Errorf("harness: %v", err)
 		}
 		w.qB = append(w.qB, last)
 	case "SwitchTo":
 		if err := w.E.SwitchTo(*w.Blk[s.B].Hash(), nil); err != nil {
-			return err
+			return fmt.Errorf("harness: %v", err)
 		}
 		w.qB = append(w.qB, s.B)
 	case "Announce":
@@ -428,8 +450,96 @@ func (w *World) Do(s *Step) error {
 		w.qT = w.qT[1:]
 		m := w.Tx[s.T]
 		return w.stepHandler(func() { w.H.OnTransactionReceived(m) })
+	case "Crash":
+		return w.Crash()
+	case "Restart":
+		return w.Restart(0)
+	case "RestartCrash":
+		return w.Restart(s.K)
 	default:
 		return fmt.Errorf("unknown action %q", s.A)
+	}
+	return nil
+}
+
+// Crash: the process dies now.  Every later storage call of this instance fails, its
+// goroutines are abandoned, the database directory is copied as it is on disk (the
+// image a kill -9 leaves: LevelDB hands every committed batch to the OS at commit).
+func (w *World) Crash() error {
+	w.DB.Freeze()
+	gatesMu.Lock()
+	delete(gates, w.H)
+	gatesMu.Unlock()
+	w.G.Open()
+	w.gen++
+	snap := filepath.Join(w.Dir, fmt.Sprintf("wallet-%d.db", w.gen))
+	// stop the dead instance's background compaction so that the directory is stable while it
+	// is copied; every committed batch is already in the journal, closing adds nothing to it
+	w.DB.Inner().Close()
+	if err := copyDir(w.dbPath, snap); err != nil {
+		return fmt.Errorf("harness: snapshot: %v", err)
+	}
+	os.Remove(filepath.Join(snap, "LOCK"))
+	w.dbPath = snap
+	w.qB, w.qT = nil, nil
+	w.down = true
+	return nil
+}
+
+// Restart opens the crash image in a fresh wallet manager and starts it.  With
+// dieAfter > 0 the new instance crashes again after that many commits of Start's catch-up.
+func (w *World) Restart(dieAfter int) error {
+	inner, err := mwdb.OpenDB("leveldb", w.dbPath)
+	if err != nil {
+		return fmt.Errorf("wallet database does not open after the crash: %v", err)
+	}
+	w.DB = dbwrap.Wrap(inner)
+	if err := w.openManager(); err != nil {
+		return fmt.Errorf("wallet does not open after the crash: %v", err)
+	}
+	if dieAfter > 0 {
+		base := w.DB.Commits()
+		db := w.DB
+		db.SetHooks(dbwrap.Hooks{AfterCommit: func(n int64, err error) {
+			if n-base == int64(dieAfter) {
+				db.Freeze()
+			}
+		}})
+		err := w.W.Start()
+		if !db.Frozen() {
+			return fmt.Errorf("restart was to die after %d catch-up commits but only %d happened (Start: %v)", dieAfter, db.Commits()-base, err)
+		}
+		return w.Crash()
+	}
+	if err := w.start(); err != nil {
+		return fmt.Errorf("wallet does not start after the crash: %v", err)
+	}
+	w.down = false
+	return nil
+}
+
+func copyDir(src, dst string) error {
+	if err := os.MkdirAll(dst, 0700); err != nil {
+		return err
+	}
+	ents, err := os.ReadDir(src)
+	if err != nil {
+		return err
+	}
+	for _, e := range ents {
+		if e.IsDir() {
+			if err := copyDir(filepath.Join(src, e.Name()), filepath.Join(dst, e.Name())); err != nil {
+				return err
+			}
+			continue
+		}
+		b, err := os.ReadFile(filepath.Join(src, e.Name()))
+		if err != nil {
+			return err
+		}
+		if err := os.WriteFile(filepath.Join(dst, e.Name()), b, 0600); err != nil {
+			return err
+		}
 	}
 	return nil
 }
@@ -469,6 +579,11 @@ func (w *World) Compare(exp *Expect) ([]Diff, error) {
 	}
 	if int(synced) != exp.Synced {
 		add("synced-height", "", "SyncedTo", fmt.Sprint(exp.Synced), fmt.Sprint(synced))
+	}
+	// property level: with every notification processed (and after any restart) the wallet
+	// must be on the node's best chain; the model says whether this step leaves it there
+	if exp.OnBest != nil && !*exp.OnBest {
+		add("quiescent-not-on-best", "", "wallet chain", fmt.Sprintf("best chain %v", exp.Best), fmt.Sprintf("synced height %d on another branch or behind", synced))
 	}
 	// --- the pending set, read back from the wallet database through the public mwdb API ---
 	if exp.Pend != nil {
